@@ -560,6 +560,28 @@ MUTANTS = [
     Mutant("C18", "deny-log-line-indexes-the-peer-address", "C18-R3", ST, "ClientConnectionJob.denyConnection",
            lambda f, t: replace_stmt(f, lambda s: isinstance(s, ast.Expr) and "client connection was denied" in u(s),
                                      stmts("log.warning('client connection from %s was denied: %s', self.caddr[0], reason)"))),
+    # ---- round-6 rules
+    Mutant("C10", "stream-id-from-correlation-id-or-uuid", "C10-R3", S, "Daemon._streamResponse",
+           lambda f, t: replace_expr(f, lambda e: u(e) == "str(uuid.uuid4())", "str(current_context.correlation_id or uuid.uuid4())"), also=("C03",)),
+    Mutant("C07", "default-error-hook-percent-formats-peer-address", "C07-R6", S, "_default_methodcall_error_handler",
+           lambda f, t: f.body.append(stmts("log.debug('client %s:%d' % client_sock)")[0])),
+    Mutant("C13", "disconnect-handler-indexes-exception-args", "C13-R4", ST, "ClientConnectionJob.__call__",
+           lambda f, t: replace_expr(f, lambda e: u(e) == "str(x)", "x.args[0]"), also=("C09",)),
+    Mutant("C05", "timeout-set-on-the-listening-socket", "C05-R1b", ST, "SocketServer_Threadpool.events",
+           lambda f, t: replace_expr(f, lambda e: u(e) == "csock.settimeout", "self.sock.settimeout")),
+    Mutant("C11", "compat-batch-drops-oneway", "C11-R4", "Pyro5/compatibility/Pyro4.py", "BatchProxy.__call__",
+           lambda f, t: replace_expr(f, lambda e: isinstance(e, ast.Call) and u(e.func).endswith("__call__") and "super" in u(e), "super().__call__(oneway=asynchronous)")),
+    Mutant("C14", "sqlite-name-column-with-numeric-affinity", "C14-R12", NSV, "SqlStorage._create_schema",
+           lambda f, t: replace_expr(f, lambda e: isinstance(e, ast.Constant) and isinstance(e.value, str) and "CREATE TABLE pyro_names" in e.value,
+                                     lambda e: ast.Constant(value=e.value.replace("name nvarchar", "name string")))),
+    Mutant("C15", "sql-setitem-in-autocommit-mode", "C15-R3", NSV, "SqlStorage.__setitem__",
+           lambda f, t: [c.keywords.append(ast.keyword(arg="isolation_level", value=ast.Constant(value=None))) for c in ast.walk(f) if isinstance(c, ast.Call) and u(c.func) == "sqlite3.connect"], also=("C14",)),
+    Mutant("C17", "empty-chunk-raises-before-length-test", "C17-R1", SU, "receive_data",
+           lambda f, t: insert_after(f, lambda s: isinstance(s, ast.Assign) and "MSG_WAITALL" in u(s), stmts("if not chunk:\n    raise ConnectionClosedError('receiving: not enough data')")), also=("C06", "C08")),
+    Mutant("C14", "yplookup-any-passes-tags-as-given", "C14-R5", NSV, "NameServer.yplookup",
+           lambda f, t: delete_stmt(f, lambda s: u(s) == "meta_any = frozenset(meta_any)")),
+    Mutant("C06", "annotation-memoryviews-measured-in-items", "C06-R3", P, "SendingMessage.__init__",
+           lambda f, t: delete_stmt(f, lambda s: isinstance(s, ast.Assign) and "cast('B')" in u(s))),
     Mutant("C01", "marshal-call-envelope-swapped", "C01-R7", SER, "MarshalSerializer.dumpsCall",
            lambda f, t: replace_expr(f, lambda e: u(e) == "(obj, method, vargs, kwargs)", "(obj, method, kwargs, vargs)")),
     Mutant("C01", "json-call-envelope-key-mismatch", "C01-R7", SER, "JsonSerializer.loadsCall",
